@@ -121,7 +121,7 @@ PROPS = {
         "assumptions": ["serde_json: parsing what was printed yields a cookie with the same content (used only by lemma_c10_reaccept)"],
     },
     "C14": {
-        "units": ["U9", "U11", "U4", "U3"],
+        "units": ["U9", "U11", "U4", "U3", "U2"],
         "level": "proof",
         "witness": [(r"max_packet_length|listen|handle", "limits")],
         "sweep": ["limits"],
